@@ -1,15 +1,330 @@
 /-
-Helper lemmas for C16 (coarse-graining).
+Helper lemmas for C16 (coarse-graining): the accumulation loops (`scatterAdd`), list maxima, what an
+accepted call computed, the tests of `check_index_map_validity` as the documented rules.
 -/
 import Mathlib.Algebra.Order.Field.Rat
+import Mathlib.Algebra.BigOperators.Group.List.Basic
 import Mathlib.Tactic.Linarith
 import Mathlib.Tactic.Ring
 import Mathlib.Tactic.FieldSimp
 import Strengths.Model.Coarsegrain
 import Strengths.Proofs.Units
-import Strengths.Proofs.Trajectory
 
 namespace Strengths
 open Gen
+
+/-- one step of the accumulation loops -/
+def scatterStep (acc : List Rat) (p : Int × Rat) : List Rat :=
+  if cgKeep p.1 then acc.modify p.1.toNat (· + p.2) else acc
+
+theorem scatterAdd_eq (n : Nat) (pairs : List (Int × Rat)) :
+    scatterAdd n pairs = pairs.foldl scatterStep (List.replicate n 0) := rfl
+
+theorem scatterStep_length (acc : List Rat) (p : Int × Rat) : (scatterStep acc p).length = acc.length := by
+  unfold scatterStep; split <;> simp
+
+theorem foldl_scatter_length (pairs : List (Int × Rat)) (acc : List Rat) :
+    (pairs.foldl scatterStep acc).length = acc.length := by
+  induction pairs generalizing acc with
+  | nil => rfl
+  | cons p r ih => simp [List.foldl_cons, ih, scatterStep_length]
+
+/-- contribution of the pairs that land in slot `k` -/
+def slotSum (k : Nat) (pairs : List (Int × Rat)) : Rat :=
+  ((pairs.filter fun p => cgKeep p.1 && p.1.toNat == k).map (·.2)).sum
+
+theorem foldl_scatter_get (pairs : List (Int × Rat)) (acc : List Rat) (k : Nat) (hk : k < acc.length) :
+    (pairs.foldl scatterStep acc)[k]'(by rw [foldl_scatter_length]; exact hk) = acc[k] + slotSum k pairs := by
+  induction pairs generalizing acc with
+  | nil => simp [slotSum]
+  | cons p r ih =>
+    simp only [List.foldl_cons]
+    rw [ih (scatterStep acc p) (by rw [scatterStep_length]; exact hk)]
+    unfold scatterStep slotSum
+    by_cases h1 : cgKeep p.1 = true
+    · by_cases h2 : p.1.toNat = k
+      · simp [h1, h2, List.getElem_modify]; ring
+      · have h2' : ¬ (k = p.1.toNat) := fun h => h2 h.symm
+        simp [h1, h2, h2', List.getElem_modify]
+    · simp [h1]
+
+theorem scatterAdd_get (n : Nat) (pairs : List (Int × Rat)) (k : Nat) (hk : k < n) :
+    (scatterAdd n pairs)[k]? = some (slotSum k pairs) := by
+  have hlen : (scatterAdd n pairs).length = n := by rw [scatterAdd_eq, foldl_scatter_length]; simp
+  rw [List.getElem?_eq_getElem (by omega)]
+  simp only [scatterAdd_eq]
+  rw [foldl_scatter_get pairs _ k (by simpa using hk)]
+  simp
+
+theorem sum_modify_add (l : List Rat) (k : Nat) (v : Rat) (hk : k < l.length) :
+    (l.modify k (· + v)).sum = l.sum + v := by
+  induction l generalizing k with
+  | nil => simp at hk
+  | cons a r ih =>
+    cases k with
+    | zero => simp [List.modify_cons]; ring
+    | succ k =>
+      simp only [List.length_cons, Nat.add_lt_add_iff_right] at hk
+      simp [List.modify_cons, ih k hk]; ring
+
+theorem foldl_scatter_sum (pairs : List (Int × Rat)) (acc : List Rat)
+    (hr : ∀ p ∈ pairs, cgKeep p.1 = true → p.1.toNat < acc.length) :
+    (pairs.foldl scatterStep acc).sum = acc.sum + ((pairs.filter fun p => cgKeep p.1).map (·.2)).sum := by
+  induction pairs generalizing acc with
+  | nil => simp
+  | cons p r ih =>
+    simp only [List.foldl_cons]
+    rw [ih (scatterStep acc p) (fun q hq hk => by rw [scatterStep_length]; exact hr q (by simp [hq]) hk)]
+    by_cases h1 : cgKeep p.1 = true
+    · have := hr p (by simp) h1
+      simp [scatterStep, h1, sum_modify_add _ _ _ this]; ring
+    · simp [scatterStep, h1]
+
+theorem scatterAdd_sum (n : Nat) (pairs : List (Int × Rat))
+    (hr : ∀ p ∈ pairs, cgKeep p.1 = true → p.1.toNat < n) :
+    (scatterAdd n pairs).sum = ((pairs.filter fun p => cgKeep p.1).map (·.2)).sum := by
+  rw [scatterAdd_eq, foldl_scatter_sum pairs _ (by simpa using hr)]
+  simp
+
+theorem zip_replicate_filter (q : Int → Bool) (v : Rat) (l : List Int) :
+    ((l.zip (List.replicate l.length v)).filter (fun p => q p.1)).map (·.2) = List.replicate (l.filter q).length v := by
+  induction l with
+  | nil => simp
+  | cons a r ih =>
+    simp only [List.length_cons, List.replicate_succ, List.zip_cons_cons, List.filter_cons]
+    by_cases h : q a = true
+    · simp [h, ih, List.replicate_succ]
+    · simp [h, ih]
+
+theorem foldl_max_ge (l : List Int) (a : Int) : a ≤ l.foldl max a ∧ ∀ x ∈ l, x ≤ l.foldl max a := by
+  induction l generalizing a with
+  | nil => simp
+  | cons b r ih =>
+    simp only [List.foldl_cons, List.mem_cons]
+    obtain ⟨h1, h2⟩ := ih (max a b)
+    refine ⟨le_trans (le_max_left a b) h1, ?_⟩
+    intro x hx
+    rcases hx with rfl | hx
+    · exact le_trans (le_max_right a x) h1
+    · exact h2 x hx
+
+theorem listMax_ge {l : List Int} {m : Int} (h : listMax l = some m) : ∀ x ∈ l, x ≤ m := by
+  cases l with
+  | nil => simp [listMax] at h
+  | cons a r =>
+    simp only [listMax, Option.some.injEq] at h
+    subst h
+    intro x hx
+    rcases List.mem_cons.1 hx with rfl | hx
+    · exact (foldl_max_ge r x).1
+    · exact (foldl_max_ge r a).2 x hx
+
+/-- what an accepted `coarsegrainGrid` call computed -/
+theorem coarsegrainGrid_ok {g : GridShape} {h : Rat} {uv ug : Sys} {envs : List Int} {im : List (Option Int)} {sp : CgSpace}
+    (hok : coarsegrainGrid g h uv ug envs im = .ok sp) :
+    (g.px || g.py || g.pz) = false ∧ checkIndexMap im envs = .ok () ∧
+    sp.vols = scatterAdd ((listMax (im.filterMap id)).getD 0 + 1).toNat
+      ((im.filterMap id).zip ((List.replicate g.size (h * h * h)).map (· * convFactor uv ug Dim.volume))) ∧
+    sp.envs = scatterSet ((listMax (im.filterMap id)).getD 0 + 1).toNat ((im.filterMap id).zip envs) := by
+  unfold coarsegrainGrid at hok
+  split at hok
+  · cases hok
+  · rename_i hper
+    simp only [gridToGraph] at hok
+    split at hok
+    · cases hok
+    · rename_i hchk
+      cases hok
+      exact ⟨by simpa using hper, hchk, rfl, rfl⟩
+
+/-- the five tests before the environment loop, as the documented rules -/
+theorem checkIndexMap_ok_iff (im : List (Option Int)) (envs : List Int) :
+    checkIndexMap im envs = .ok () ↔
+      im.length = envs.length ∧ (∀ x ∈ im, x.isSome = true) ∧
+      ∃ mx mn, listMax (im.filterMap id) = some mx ∧ listMin (im.filterMap id) = some mn ∧ -1 ≤ mn ∧ 0 ≤ mx ∧
+        (∀ k : Nat, (k : Int) < mx → (k : Int) ∈ im.filterMap id) ∧
+        envLoop ((im.filterMap id).zip envs) (List.replicate (mx + 1 - mn).toNat envSentinel) = .ok () := by
+  unfold checkIndexMap
+  constructor
+  · intro h
+    split at h
+    · cases h
+    · rename_i hlen
+      split at h
+      · cases h
+      · rename_i hty
+        dsimp only at h
+        split at h
+        · rename_i mx mn hmx hmn
+          split at h
+          · cases h
+          · rename_i hmin
+            split at h
+            · cases h
+            · rename_i hmax
+              split at h
+              · cases h
+              · rename_i hpres
+                refine ⟨?_, ?_, mx, mn, hmx, hmn, ?_, ?_, ?_, h⟩
+                · simpa [imLenBad] using hlen
+                · intro x hx
+                  by_contra hc
+                  exact hty (List.any_eq_true.2 ⟨x, hx, by simpa using hc⟩)
+                · simpa [imMinBad] using hmin
+                · simpa [imMaxBad] using hmax
+                · intro k hk
+                  simp only [imPresenceHi, imPresenceLo, Int.sub_zero, Int.zero_add, List.any_eq_true, List.mem_range,
+                    Bool.not_eq_true', not_exists, not_and] at hpres
+                  have := hpres k (by omega)
+                  simpa using this
+        · cases h
+  · rintro ⟨hlen, hty, mx, mn, hmx, hmn, hmin, hmax, hpres, henv⟩
+    have h1 : imLenBad (im.length : Int) (envs.length : Int) = false := by simp [imLenBad, hlen]
+    have h2 : im.any Option.isNone = false := by
+      rw [List.any_eq_false]
+      intro x hx
+      have := hty x hx
+      cases x with
+      | none => simp at this
+      | some v => simp
+    have h3 : imMinBad mn = false := by simp [imMinBad]; omega
+    have h4 : imMaxBad mx = false := by simp [imMaxBad]; omega
+    have h5 : (List.range (imPresenceHi mx - imPresenceLo mx).toNat).any
+        (fun k => !(im.filterMap id).contains (imPresenceLo mx + (k : Int))) = false := by
+      rw [List.any_eq_false]
+      intro k hk
+      simp only [imPresenceHi, imPresenceLo, Int.sub_zero, List.mem_range] at hk
+      have := hpres k (by omega)
+      simp only [imPresenceLo, Int.zero_add, Bool.not_eq_true']
+      rw [List.contains_iff_mem.2 this]
+      simp
+    simp only [h1, h2, hmx, hmn, h3, h4, h5, Bool.false_eq_true, if_false]
+    exact henv
+
+
+theorem filterMap_id_length (im : List (Option Int)) (hty : ∀ x ∈ im, x.isSome = true) :
+    (im.filterMap id).length = im.length := by
+  induction im with
+  | nil => rfl
+  | cons a r ih =>
+    have ha := hty a (by simp)
+    have hr := ih (fun x hx => hty x (by simp [hx]))
+    cases a with
+    | none => simp at ha
+    | some v =>
+      rw [List.filterMap_cons]
+      simp only [id, List.length_cons]
+      exact congrArg (· + 1) hr
+
+/-- number of retained cells -/
+def keptCount (ims : List Int) : Nat := (ims.filter cgKeep).length
+
+theorem cg_volume_aux {g : GridShape} {h : Rat} {uv ug : Sys} {envs : List Int} {im : List (Option Int)} {sp : CgSpace}
+    (henv : envs.length = g.size) (hok : coarsegrainGrid g h uv ug envs im = .ok sp) :
+    sp.vols.sum = (keptCount (im.filterMap id) : Rat) * (h * h * h * convFactor uv ug Dim.volume) := by
+  obtain ⟨_, hchk, hv, _⟩ := coarsegrainGrid_ok hok
+  obtain ⟨hlen, hty, mx, mn, hmx, hmn, hmin, hmax, hpres, _⟩ := (checkIndexMap_ok_iff im envs).1 hchk
+  have hims : (im.filterMap id).length = g.size := by rw [← henv, ← hlen]; exact filterMap_id_length im hty
+  rw [hv, scatterAdd_sum]
+  · have : (List.replicate g.size (h * h * h)).map (· * convFactor uv ug Dim.volume)
+        = List.replicate (im.filterMap id).length (h * h * h * convFactor uv ug Dim.volume) := by
+      rw [hims]; simp
+    rw [this, zip_replicate_filter cgKeep]
+    simp [keptCount]
+  · intro p hp hk
+    have hmem : p.1 ∈ im.filterMap id := (List.of_mem_zip hp).1
+    have hle := listMax_ge hmx p.1 hmem
+    simp only [hmx, Option.getD_some]
+    omega
+
+def edgeKey (e : GEdge) : Int × Int := (e.i, e.j)
+
+/-- invariant of the edge loop: endpoints ordered, no pair twice -/
+def EdgesOk (acc : List GEdge) : Prop := (∀ o ∈ acc, o.i < o.j) ∧ (acc.map edgeKey).Nodup
+
+theorem map_key_modify (acc : List GEdge) (k : Nat) (f : GEdge → GEdge) (hf : ∀ o, edgeKey (f o) = edgeKey o) :
+    (acc.modify k f).map edgeKey = acc.map edgeKey := by
+  induction acc generalizing k with
+  | nil => simp
+  | cons a r ih =>
+    cases k with
+    | zero => simp [List.modify_cons, hf]
+    | succ k => simp [List.modify_cons, ih]
+
+theorem addEdge_ok (im : List Int) (acc : List GEdge) (e : GEdge) (h : EdgesOk acc) : EdgesOk (addEdge im acc e) := by
+  unfold addEdge
+  dsimp only
+  split
+  · exact h
+  · rename_i hij
+    split
+    · exact h
+    · split
+      · -- merge into the existing edge: keys unchanged
+        have hk := map_key_modify acc (acc.findIdx fun o => o.i == min (im.getD e.i.toNat 0) (im.getD e.j.toNat 0) && o.j == max (im.getD e.i.toNat 0) (im.getD e.j.toNat 0))
+          (fun o => { o with surface := o.surface + e.surface }) (fun o => rfl)
+        refine ⟨?_, by rw [hk]; exact h.2⟩
+        intro o ho
+        have : edgeKey o ∈ (acc.modify _ fun o => { o with surface := o.surface + e.surface }).map edgeKey := List.mem_map_of_mem ho
+        rw [hk] at this
+        obtain ⟨o', ho', hkey⟩ := List.mem_map.1 this
+        have := h.1 o' ho'
+        simp only [edgeKey, Prod.mk.injEq] at hkey
+        omega
+      · rename_i hany
+        have hne : im.getD e.i.toNat 0 ≠ im.getD e.j.toNat 0 := by simpa using hij
+        refine ⟨?_, ?_⟩
+        · intro o ho
+          rcases List.mem_append.1 ho with ho | ho
+          · exact h.1 o ho
+          · simp only [List.mem_singleton] at ho
+            subst ho
+            simp only
+            omega
+        · rw [List.map_append, List.nodup_append]
+          refine ⟨h.2, by simp, ?_⟩
+          intro a ha b hb
+          simp only [List.map_cons, List.map_nil, List.mem_singleton] at hb
+          subst hb
+          obtain ⟨o, ho, rfl⟩ := List.mem_map.1 ha
+          intro heq
+          apply hany
+          rw [List.any_eq_true]
+          refine ⟨o, ho, ?_⟩
+          simp only [edgeKey, Prod.mk.injEq] at heq
+          simp [heq.1, heq.2]
+
+theorem foldl_addEdge_ok (im : List Int) (es : List GEdge) (acc : List GEdge) (h : EdgesOk acc) :
+    EdgesOk (es.foldl (addEdge im) acc) := by
+  induction es generalizing acc with
+  | nil => exact h
+  | cons e r ih => exact ih _ (addEdge_ok im acc e h)
+
+theorem coarsegrainGrid_edges {g : GridShape} {h : Rat} {uv ug : Sys} {envs : List Int} {im : List (Option Int)} {sp : CgSpace}
+    (hok : coarsegrainGrid g h uv ug envs im = .ok sp) :
+    sp.edges.map edgeKey = ((gridToGraph g h envs).edges.foldl (addEdge (im.filterMap id)) []).map edgeKey := by
+  unfold coarsegrainGrid at hok
+  split at hok
+  · cases hok
+  · simp only [] at hok
+    split at hok
+    · cases hok
+    · cases hok
+      simp only [List.map_map]
+      rfl
+
+theorem cg_edges_ok {g : GridShape} {h : Rat} {uv ug : Sys} {envs : List Int} {im : List (Option Int)} {sp : CgSpace}
+    (hok : coarsegrainGrid g h uv ug envs im = .ok sp) :
+    (∀ e ∈ sp.edges, e.i < e.j) ∧ (sp.edges.map edgeKey).Nodup := by
+  have hk := coarsegrainGrid_edges hok
+  have hinv := foldl_addEdge_ok (im.filterMap id) (gridToGraph g h envs).edges [] ⟨by simp, by simp⟩
+  refine ⟨?_, by rw [hk]; exact hinv.2⟩
+  intro e he
+  have : edgeKey e ∈ sp.edges.map edgeKey := List.mem_map_of_mem he
+  rw [hk] at this
+  obtain ⟨o, ho, hkey⟩ := List.mem_map.1 this
+  have := hinv.1 o ho
+  simp only [edgeKey, Prod.mk.injEq] at hkey
+  omega
 
 end Strengths
